@@ -201,6 +201,28 @@ for meth in ("value", "to"):
         c.no_raise()
 
 
+for meth in ("value", "to"):
+    @contract(f"{Q}.{meth}", ["C04", "C07"], name=f"Quantity.{meth}[array-magnitude-reciprocal-dimension]")
+    def _(c, meth=meth):
+        c.bound = "arrays of three non-zero elements (element values symbolic); units of exactly reciprocal dimension"
+        for a, b in RECIP[:4]:
+            ua, ub, fa, fb = _scen(a, b)
+
+            def pre(bd, ua=ua, ub=ub, fa=fa, fb=fb):
+                xs, arr = _arr(bd)
+                q = bd.new(Q, arr, ua)
+                return dict(args=[q, ub], env=dict(xs=xs, fa=fa, fb=fb, q=q, arr=arr))
+            c.scenario(f"{ua}->{ub}", pre)
+        c.requires("all([x != 0 for x in xs])")
+        if meth == "value":
+            c.ensures("all([close(r, 1 / (x * fa) / fb) for r, x in zip(elems(result), xs)]) and len(elems(result)) == len(xs)", "element-wise-reciprocal")
+            c.ensures("elems(q.magnitude.value) == xs", "the-quantity-keeps-its-elements")
+        else:
+            c.ensures("all([close(r, 1 / (x * fa) / fb) for r, x in zip(elems(self.magnitude.value), xs)]) and len(elems(self.magnitude.value)) == len(xs)", "element-wise-reciprocal")
+        c.ensures("elems(arr) == xs", "the-array-handed-in-is-not-written-to")
+        c.no_raise()
+
+
 @contract(f"{Q}.value", ["C04", "C07", "C08"], name="Quantity.value[array-magnitude-with-uncertainty]")
 def _(c):
     c.bound = "arrays of three elements with one absolute uncertainty for all (element values and uncertainty symbolic)"
